@@ -3,7 +3,8 @@ From Aldrin Require Import Codec.Base Codec.BaseProofs Codec.Value Codec.Ser Cod
   Codec.RoundTrip gen.Consts.
 From Aldrin Require Import Codec.DeProofs.
 From Aldrin Require Import Derive.Ty Derive.TDe Derive.TSer Derive.Conforms Derive.TDeProofs
-  Derive.ConformsProofs Derive.TSerProofs Derive.TDeTotal Derive.DocAttr Derive.DocAttrProofs Derive.DeriveTie.
+  Derive.ConformsProofs Derive.TSerProofs Derive.TDeTotal Derive.DocAttr Derive.DocAttrProofs Derive.DeriveTie
+  Derive.Evolve Derive.EvolveRel Derive.EvolveProofs.
 From Coq Require Import ZifyBool ZifyNat ZifyN.
 Open Scope N_scope.
 Arguments N.eqb : simpl never.
@@ -120,6 +121,65 @@ Lemma fallback_preserves e t v bs : wf_ty t = true -> wf true v = true -> confor
   exists x bs', tde_top t bs = Ok x /\ typed e t 0 v = Some x /\ tser_top t x = Ok bs' /\ tde_top t bs' = Ok x.
 Proof.
   intros Ht Hwf Hc Hs. destruct (cycle_top e t v bs Ht Hwf Hc Hs) as (x & bs' & A & T & B & _ & D). eauto 6.
+Qed.
+
+(* ---------- old/new: a value of the newer type through code generated from the older type ---------- *)
+Lemma old_new e t1 t2 v bs : wf_ty t1 = true -> wf_ty t2 = true -> evolves_keeping t1 t2 = true ->
+  wf true v = true -> conforms t2 v = true -> serialize e v = Ok bs ->
+  exists x1 bs' x2 bs'',
+    tde_top t1 bs = Ok x1 /\ tser_top t1 x1 = Ok bs' /\
+    tde_top t2 bs' = Ok x2 /\ tde_top t2 bs = Ok x2 /\
+    tser_top t2 x2 = Ok bs'' /\ de_as_value true bs'' = Ok (norm t2 v).
+Proof.
+  intros W1 W2 Hev Hwf Hc2 Hs.
+  pose proof (evolves_conforms v t1 t2 Hev Hc2) as Hc1.
+  destruct (accepts e t1 v bs W1 Hwf Hc1 Hs) as (x1 & Hx1 & Ty1).
+  destruct (cycle_top e t2 v bs W2 Hwf Hc2 Hs) as (x2 & bs'' & Hx2 & Ty2 & Hs2 & Hde2 & _).
+  unfold serialize in Hs.
+  destruct (typed_cycle2 e v t1 t2 0%nat bs x1 x2 Hwf W1 W2 Hev Hs Ty1 Ty2) as (bs' & Hb & Htde).
+  exists x1, bs', x2, bs''.
+  split; [exact Hx1|]. split; [exact Hb|]. split; [|split; [exact Hx2|split; [exact Hs2|exact Hde2]]].
+  unfold tde_top. pose proof (Htde (fuel2 v) [] (le_n _)) as D. rewrite app_nil_r in D.
+  rewrite (tde_value_stable t2 bs' _ _ D ltac:(discriminate)). reflexivity.
+Qed.
+
+(* under the condition the harness labels KEEPS with *)
+Lemma old_new_all_fallback e t1 t2 v bs : wf_ty t1 = true -> wf_ty t2 = true ->
+  evolves t1 t2 = true -> all_fallback t1 = true ->
+  wf true v = true -> conforms t2 v = true -> serialize e v = Ok bs ->
+  exists x1 bs' x2 bs'',
+    tde_top t1 bs = Ok x1 /\ tser_top t1 x1 = Ok bs' /\
+    tde_top t2 bs' = Ok x2 /\ tde_top t2 bs = Ok x2 /\
+    tser_top t2 x2 = Ok bs'' /\ de_as_value true bs'' = Ok (norm t2 v).
+Proof. intros W1 W2 He Hf. apply old_new; auto. apply evolves_all_fallback; assumption. Qed.
+
+(* the negative side: an older enum without fallback rejects a variant it does not know *)
+Lemma old_rejects_new_variant e vs1 id x bs : wf_ty (TEnum vs1 false) = true -> wf true (VEnum id x) = true ->
+  find_variant vs1 id = None -> serialize e (VEnum id x) = Ok bs ->
+  exists err, tde_top (TEnum vs1 false) bs = Err err.
+Proof. intros W Hwf Hf Hs. eapply rejects; eauto. apply unknown_variant. exact Hf. Qed.
+
+(* ... and an older struct without fallback drops every field it does not know *)
+Lemma norm_nofallback_ids fs l id y :
+  match norm (TStruct fs false) (VStruct l) with VStruct l' => In (id, y) l' | _ => False end -> known_field fs id = true.
+Proof.
+  cbn [norm app]. intros H. apply in_flat_map in H as (f & Hf & H). apply in_flat_map in H as (p & Hp & H).
+  destruct (N.eqb_spec (fst p) (fst f)) as [E|E]; [|destruct H].
+  assert (id = fst f) as ->.
+  { destruct (fst (snd f)).
+    - destruct H as [H|[]]. inversion H. congruence.
+    - destruct (snd p); try solve [destruct H]. destruct H as [H|[]]. inversion H. congruence. }
+  unfold known_field. pose proof (find_field_some_in fs f Hf). destruct (find_field fs (fst f)); [reflexivity|congruence].
+Qed.
+
+Lemma old_drops_without_fallback e fs1 l bs : wf_ty (TStruct fs1 false) = true -> wf true (VStruct l) = true ->
+  conforms (TStruct fs1 false) (VStruct l) = true -> serialize e (VStruct l) = Ok bs ->
+  exists x bs' l', tde_top (TStruct fs1 false) bs = Ok x /\ tser_top (TStruct fs1 false) x = Ok bs' /\
+    de_as_value true bs' = Ok (VStruct l') /\ forall id y, In (id, y) l' -> known_field fs1 id = true.
+Proof.
+  intros W Hwf Hc Hs. destruct (accepts_full e _ _ bs W Hwf Hc Hs) as (x & bs' & A & B & C).
+  exists x, bs'. cbn [norm app] in C. eexists. split; [exact A|]. split; [exact B|]. split; [exact C|].
+  intros id y H. apply (norm_nofallback_ids fs1 l id y). cbn [norm app]. exact H.
 Qed.
 
 (* the emitter the code has NOW, selected by what the translator found at the emission sites *)
